@@ -195,6 +195,46 @@ def _series_ok(c, series, arts, names):
     return msgs
 
 
+def _check_session(cases, prob=False):
+    """the same figures drawn in ONE session: every verif.driver.run of the chunk gets the SAME verif.data.Data object for the same
+    files and selection (as a script does that loads its data once and draws several diagrams) -- a diagram must not change what
+    the next one is drawn from"""
+    import hashlib
+    import numpy as np
+    import verif.data
+    real = verif.data.Data
+    cache = {}
+
+    def norm(v):
+        if isinstance(v, (int, float, str, bool, type(None))):
+            return v
+        if isinstance(v, (list, tuple, np.ndarray)):
+            return tuple(np.asarray(v).reshape(-1).tolist())
+        return type(v).__name__
+
+    def factory(inputs, **kw):
+        key = (tuple(hashlib.md5(open(i.fullname, "rb").read()).hexdigest() for i in inputs),
+               tuple(sorted((k, norm(v)) for k, v in kw.items() if k != "clim")), None if kw.get("clim") is None else kw["clim"].fullname)
+        if key not in cache:
+            cache[key] = real(inputs, **kw)
+        return cache[key]
+    verif.data.Data = factory
+    try:
+        if prob:
+            n, pdivs = _check_prob_chunk(cases)
+            divs = [(site, detail, rep) for site, known, detail, rep in pdivs]
+        else:
+            n, divs = _check_chunk(cases)
+    finally:
+        verif.data.Data = real
+    return n, [(site + ":one-session", detail + " [drawn in one session on a shared Data object, after: %s]" % ", ".join(c["diagram"] for c in cases[:6]), rep)
+               for site, detail, rep in divs]
+
+
+def _check_prob_session(cases):
+    return _check_session(cases, prob=True)
+
+
 def _check_prob_chunk(cases):
     import matplotlib.pyplot as mpl
     n = 0
@@ -238,6 +278,23 @@ def run(ctx):
         ctx.evaluations += n
         for site, detail, rep in divs:
             ctx.diverge(site, rep, detail=detail)
+    # one session per dataset: all its diagrams on one shared Data object, qq / scatter / against first, then the rest; then in reverse
+    import json as _json
+    groups = {}
+    for c in cases:
+        groups.setdefault(_json.dumps(c["inputs"], sort_keys=True), []).append(c)
+    first = {"qq": 0, "scatter": 1, "against": 2, "obsfcst": 3}
+    sessions = []
+    for key in sorted(groups):
+        g = sorted(groups[key], key=lambda c: (first.get(c["diagram"], 9), c["diagram"], " ".join(c["argv"])))
+        sessions.append(g)
+        sessions.append(g[::-1])
+    if ctx.tier == "quick":
+        sessions = sessions[:4]
+    for n, divs in par.pmap(_check_session, sessions, chunk=1):
+        ctx.evaluations += n
+        for site, detail, rep in divs:
+            ctx.diverge(site, rep, detail=detail)
     ctx.traces += len(cases)
     for c in cases:
         if any(len(s["x"]) > 1 for s in c["series"]):
@@ -255,6 +312,20 @@ def run(ctx):
         ctx.evaluations += n
         for site, known, detail, rep in divs:
             ctx.diverge(site, rep, as_implemented=known, detail=detail)
+    pgroups = {}
+    for c in pcases:
+        pgroups.setdefault(_json.dumps(c["inputs"], sort_keys=True), []).append(c)
+    psessions = []
+    for key in sorted(pgroups):
+        g = sorted(pgroups[key], key=lambda c: (c["diagram"], " ".join(c["argv"])))
+        psessions.append(g)
+        psessions.append(g[::-1])
+    if ctx.tier == "quick":
+        psessions = [g[:14] for g in psessions[:6]]
+    for n, divs in par.pmap(_check_prob_session, psessions, chunk=1):
+        ctx.evaluations += n
+        for site, detail, rep in divs:
+            ctx.diverge(site, rep, detail=detail)
     ctx.traces += len(pcases)
     kinds = {}
     for c in cases + pcases:
